@@ -1,0 +1,27 @@
+//go:build verif
+
+package gzip
+
+// Add-only export file for the verification harness in /verif (build tag "verif").
+
+import "unsafe"
+
+// VerifObj: identity of the pooled object behind a reader/writer made by this
+// package (0 when it holds none, e.g. an errorReader / errorWriter).
+func VerifObj(v interface{}) uintptr {
+	switch p := v.(type) {
+	case *reader:
+		return uintptr(unsafe.Pointer(p.Reader))
+	case *writer:
+		return uintptr(unsafe.Pointer(p.Writer))
+	}
+	return 0
+}
+
+// VerifDrainPools empties the reader pool and the codec's writer pool.
+func VerifDrainPools(c *Codec) {
+	for readerPool.Get() != nil {
+	}
+	for c.writerPool.Get() != nil {
+	}
+}
